@@ -161,6 +161,10 @@ def r14_2_3(ck: Check) -> None:
                 for n in lst:
                     if isinstance(n, ast.AugAssign) and isinstance(n.target, ast.Name) and n.target.id == acc_name:
                         augs.append((b, n))
+    inits = [n for root in scope_nodes for n in ast.walk(root) if isinstance(n, (ast.Assign, ast.AnnAssign))
+             and any(isinstance(t, ast.Name) and t.id == acc_name for t in (n.targets if isinstance(n, ast.Assign) else [n.target]))]
+    if len(inits) != 1 or not (isinstance(inits[0].value, ast.Constant) and inits[0].value.value == 0 and not isinstance(inits[0].value.value, bool)):
+        problems.append("%s starts from %s (0 expected: nothing collected yet)" % (acc_name, "; ".join(ast.unparse(n.value) if n.value is not None else "?" for n in inits) or "nothing"))
     if len(augs) != 1 or not isinstance(augs[0][1].op, ast.Add):
         problems.append("%d updates of %s (one `+=` expected)" % (len(augs), acc_name))
     else:
@@ -176,6 +180,12 @@ def r14_2_3(ck: Check) -> None:
         ck.violated("R14.3", construct, "; ".join(problems) + " — the amount the change is computed from is then not the sum of the inputs", summ.fi.loc)
     else:
         ck.ok("R14.3", construct, "", ins[0].loc)
+    construct = "create_spend_transaction: every path ends in the signed transaction or in a raise (insufficient funds are reported, not passed over)"
+    if summ.falls:
+        ck.violated("R14.3", construct, "the function can run off its end: the caller gets None where it expects a transaction or the insufficient-funds "
+                    "error", summ.fi.loc)
+    else:
+        ck.ok("R14.3", construct, "", summ.fi.loc)
     first = sp.term("Output(value, opk)")
     tx_arg = signs[0].term[2][2] if len(signs[0].term[2]) == 3 else None
     construct = "create_spend_transaction: first output pays exactly `value` to the recipient; the transaction signed is Transaction(inputs, outputs)"
